@@ -421,10 +421,14 @@ def run_property(prop, tier, seed):
     kf = known_findings()
     obligations, violations, undecided, results = decide_verus(prop, tier, seed, notes)
     # assumptions that are backed by a source scan (exit 2 when the scanned-for construct appears)
-    for pat, why in P.get("forbid_in_src", []):
+    for ent in P.get("forbid_in_src", []):
+        pat, why = ent[0], ent[1]
+        only = ent[2] if len(ent) > 2 else None   # optional: restrict the scan to files whose repo-relative path matches
         hits = []
         for root, _, files in os.walk(os.path.join(REPO, "src")):
             for fn in files:
+                if only and not re.search(only, os.path.relpath(os.path.join(root, fn), REPO)):
+                    continue
                 if fn.endswith(".rs"):
                     txt = open(os.path.join(root, fn), errors="replace").read().split("#[cfg(test)]")[0]
                     for ln, line in enumerate(txt.split("\n"), 1):
